@@ -40,6 +40,12 @@ def build_series(cfg):
         if cfg.get("boundary_regime_flip") and si > 0:
             reg = (cfg["_last_reg"] + 1) % nreg
         prev = np.zeros(N)
+        if cfg.get("alternating_rows"):
+            # a label change at (almost) every row: two levels far apart, taken in turn - vectorised, for very long series
+            lv = np.array([means[0], means[0] + 40.0])
+            x = lv[np.arange(T) % 2] + rng.normal(0, 0.5, size=(T, N))
+            pos = T
+            last = reg
         while pos < T:
             if cfg.get("short_segments"):
                 seg = int(rng.integers(2, 40))
@@ -65,6 +71,13 @@ def build_series(cfg):
             # repopulation in the following round)
             pos_o = int(rng.integers(0, T))
             x[pos_o] = means[0] + (12.0 + 6.0 * j) * (1 if j % 2 == 0 else -1)
+        if cfg.get("stray_pair") and T >= 12:
+            # two far-away, nearly equal rows some distance apart: the initialisation gives them a cluster of their own, and the
+            # first relabelling often leaves that cluster with a single point
+            a_ = int(rng.integers(1, T // 2))
+            b_ = int(rng.integers(T // 2 + 1, T - 1))
+            x[a_] = means[0] + 30.0
+            x[b_] = means[0] + 30.0 + rng.normal(0, 0.05, size=N)
         if cfg.get("excursion"):
             # a short excursion of a few consecutive rows to a far-away level: a cluster with a handful of members
             pos_e = int(rng.integers(5, max(6, T - 10)))
@@ -76,6 +89,12 @@ def build_series(cfg):
             # a coarse sensor (a few integer levels): many stacked windows are bit-identical and land in different clusters
             x = np.round(x / float(cfg["quantise"])) * float(cfg["quantise"])
         arr = x * scales + float(cfg.get("data_offset") or 0.0)
+        if cfg.get("series_dtype"):
+            # the element type / byte order the caller's recording happens to have (a file read with another endianness, single
+            # or half precision sensors); kept only if every value stays finite in that type
+            cast = arr.astype(cfg["series_dtype"])
+            if np.all(np.isfinite(cast.astype(np.float64))):
+                arr = cast
         if cfg.get("reuse_buffers"):
             from harness import buffers
             arr = buffers.reuse(f"e2e.series.{si}", arr)       # same array object as in earlier runs of this process
@@ -413,11 +432,22 @@ def run(cfg, sync_pool=True, record_admm=True, admm_wrapper=None, series=None, e
         os.environ["CUPCAKE_ENABLE_MULTIPROCESSING"] = "1"
     try:
         with contextlib.redirect_stdout(io.StringIO()):
+            pos = ()
+            if cfg.get("positional_call"):
+                kwargs = dict(kwargs)
+                pos = (kwargs.pop("window_size"), kwargs.pop("num_clusters"))
             if cfg["front"] == "single":
-                trace.result = fast_ticc.ticc_labels(series[0], **kwargs)
+                trace.result = fast_ticc.ticc_labels(series[0], *pos, **kwargs)
             else:
                 arg = series if isinstance(series, list) else list(series)     # the caller's own list object, not a copy
-                trace.result = fast_ticc.ticc_joint_labels(arg, **kwargs)
+                cont = cfg.get("series_container", "list")
+                if cont == "tuple":
+                    arg = tuple(arg)
+                elif cont == "generator":
+                    arg = (a for a in arg)
+                elif cont == "iterator":
+                    arg = iter(arg)
+                trace.result = fast_ticc.ticc_joint_labels(arg, *pos, **kwargs)
         trace.ok = True
     except Exception as e:
         trace.exc = e
